@@ -54,7 +54,13 @@ def realise(entries, layouts=("plain", "plain"), utf8=False, entry_style="simple
                 cfgs.append(c)
             tl.append(dict(name=name, keys=keys, configs=cfgs))
         table["packages"].append(dict(id=pid, name=pname, types=tl))
-    return Arsc(table, utf8=utf8).build()
+    # (ResTable_config has grown over the platform versions: 28, 32, 36, 48, 52, 56, 64 bytes are all met in real files; the fields used
+    #  here -- locale, density -- lie in the first 28)
+    _CONFIG_SIZE[0] += 1
+    return Arsc(table, utf8=utf8, config_size=(64, 28, 36, 48, 52, 56, 32)[_CONFIG_SIZE[0] % 7]).build()
+
+
+_CONFIG_SIZE = [0]
 
 
 def to_entry(e, style):
